@@ -108,3 +108,9 @@ add("C19", "model_checking",
     "1-D meshes with every spacing word over {1/4,1/2,1,2} for 2..6 nodes, deviation-bounded words for 7..12 nodes and a non-dyadic family: every access path, interpolation at every node and at interior points of every cell, trapezium = cell sum and exact on linear data, output->read round trip; 2-D meshes over all node-count pairs 2..5: both cross-section orientations, var_as_matrix, apply, assign, trapezium/square_trapezium, exact on bilinear data. BFS over set/index-write/assign/apply histories on 2x3 and 3x2 meshes.",
     "Trusted: integer-valued / dyadic nodal data make f64 results exact on power-of-two grids. Interpolation is never probed within 1e-6 of a node except at it.",
     "DESIGN.md section 6 C19")
+
+add("C20", "model_checking",
+    "exhaustive entry-point x size-pair table under panic capture with operand snapshots + explicit-state BFS over interleaved mutations of a value and its clone",
+    "92 entry points (every binary operator in owned and borrowed form, solver entry and checked accessor of Vector, Matrix, Banded, Tridiagonal, Sparse, Mesh1D/2D, Polynomial) x all size/shape pairs up to 6 (matrices to 3x3 quick / 4x4 thorough) and every index argument up to size+2 (about 12 400 calls quick): panic iff mismatched / out of range, operands equal their snapshots after a refusal and after every by-reference call, owned == borrowed results. BFS over mutations applied to a value or its clone and re-cloning, for five container types, with independent models.",
+    "Trusted: Debug/field snapshots as the observation of operand state. Raw (i,j) index operators of Matrix, Banded and Mesh2D are excluded, as the property states.",
+    "DESIGN.md section 6 C20")
